@@ -5,6 +5,7 @@ Line-protocol driver for the C18 models (shard assignment + master state machine
   modify <start> <shift> <startShard> <cfgShards> <rf> | n1 n2 ... | s:r,r s:r,r ...
   reset | up <id> | down <id> | dbcfg <db> | dropdb <db> | asg <db> s:r,r ...
   burst up <id> down <id> ...   (a batch of node events; answers the state after the last one)
+  batch <line> | <line> | ...   (single-event lines; answers the state after the last one)
 -/
 import LinVerif.Util.Proto
 import LinVerif.Model.Master
@@ -59,7 +60,7 @@ def parseBurst : List String → Option (List Event)
     some (.nodeDown i :: t)
   | _ => none
 
-def step (st : St) (ws : List String) : St × String :=
+def stepOne (st : St) (ws : List String) : St × String :=
   match ws with
   | "assign" :: rest =>
     match splitBar rest with
@@ -107,6 +108,17 @@ def step (st : St) (ws : List String) : St × String :=
     | some i, some a => let s := Master.step st (.assignChanged i a); (s, showState s)
     | _, _ => (st, "bad-op")
   | _ => (st, "bad-op")
+
+/-- `batch ev | ev | ...`: single-event lines applied in order, answers the state after the last one -/
+def step (st : St) (ws : List String) : St × String :=
+  match ws with
+  | "batch" :: rest =>
+    let r := (splitBar rest).foldl (fun (acc : St × Bool) seg =>
+      if seg.isEmpty then acc else
+        let so := stepOne acc.1 seg
+        (so.1, acc.2 && so.2 != "bad-op")) (st, true)
+    if r.2 then (r.1, showState r.1) else (st, "bad-op")
+  | _ => stepOne st ws
 
 def main (_args : List String) : IO Unit := Proto.runLoop St.init step
 
